@@ -29,6 +29,9 @@ RATES = [
     [[1.0, 1.0], [1.0, 1.0], [1.0, 1.0], [1.0, 1.0]],
     [[0.3, 0.0], [1e-3, 2.0], [0.7, 0.2], [10.0, 0.1]],
     [[1e-9, 5.0], [0.5, 0.5], [3.0, 1e3], [0.25, 0.75]],
+    # a mirrored pair with EQUAL totals: log-rate differences of exactly equal size and opposite sign about a zero median
+    [[1.0, 2.0], [2.0, 1.0], [4.0, 0.5], [0.5, 4.0]],
+    [[2.0, 1.0], [1.0, 2.0], [0.5, 4.0], [4.0, 0.5]],
 ]
 # observed catalogs: list of (cell, bin)
 OBS = [[(0, 0), (3, 1)], [(1, 0), (1, 0), (2, 1)], [(0, 0), (1, 1), (2, 0), (3, 1)], [(2, 1), (2, 1), (2, 0), (0, 1)], [(3, 0), (0, 0), (3, 0)]]
@@ -41,19 +44,21 @@ CFS = [
 
 
 def cases(tier, seed):
-    for fi in range(len(RATES)):
+    for oi in range(len(OBS)):
+        yield dict(kind='gridded', f=4, g=5, o=oi)
+    for fi in range(4):
         for oi in range(len(OBS)):
-            yield dict(kind='gridded', f=fi, g=(fi + 1) % len(RATES), o=oi)
+            yield dict(kind='gridded', f=fi, g=(fi + 1) % 4, o=oi)
     for ci in range(len(CFS)):
         for oi in range(len(OBS)):
             yield dict(kind='catalog', c=ci, o=oi)
     # the same permutation families on a quadtree region (events on shared tile edges) and on forecasts LOADED from
     # generated files whose cell blocks are written in every order
-    for fi in range(len(RATES)):
+    for fi in range(4):
         for oi in range(len(QOBS)):
-            yield dict(kind='gridded', f=fi, g=(fi + 1) % len(RATES), o=oi, backend='quadtree')
+            yield dict(kind='gridded', f=fi, g=(fi + 1) % 4, o=oi, backend='quadtree')
         for oi in (0, 2, 3):
-            yield dict(kind='gridded', f=fi, g=(fi + 1) % len(RATES), o=oi, backend='file')
+            yield dict(kind='gridded', f=fi, g=(fi + 1) % 4, o=oi, backend='file')
     if tier == 'quick':
         yield dict(kind='gridded', f=seed % 4, g=(seed + 2) % 4, o=seed % 5)     # a further forecast pairing selected by the seed
     else:
@@ -316,8 +321,9 @@ def run_case(case):
 
         def mk(reg, order, cellperm=ident, form='list', catreg=None):
             cats = [fixtures.catalog(events(cf[j], 10 * j), region=(catreg if catreg is not None else reg), catalog_id=n) for n, j in enumerate(order)]
-            given = {'list': cats, 'iter': iter(cats), 'gen': (c for c in cats), 'tuple': tuple(cats)}[form]
-            return CatalogForecast(catalogs=given, n_cat=len(cats), region=reg, name='cf')
+            given = {'list': cats, 'iter': iter(cats), 'gen': (c for c in cats), 'tuple': tuple(cats), 'gen-small-hint': (c for c in cats)}[form]
+            # gen-small-hint: the caller announces one catalog fewer than the stream delivers (every delivered catalog counts)
+            return CatalogForecast(catalogs=given, n_cat=(len(cats) - 1 if form == 'gen-small-hint' and len(cats) > 1 else len(cats)), region=reg, name='cf')
         reg0 = region(ident)
         base = {}
         J = len(cf)
@@ -353,7 +359,7 @@ def run_case(case):
                 evals += 1
                 cmp(site, kind_, got, base[site], 'synthetic-catalog', p, True)
         # (c') the synthetic catalogs handed over as a one-shot iterator, a generator expression, a tuple (every order)
-        for form in ('iter', 'gen', 'tuple'):
+        for form in ('iter', 'gen', 'tuple', 'gen-small-hint'):
             for p in itertools.permutations(range(J)):
                 states += 1
                 nontriv += 1
